@@ -572,4 +572,34 @@ theorem full_statement_needs_exclusion : ¬ FullStatementBuffering := by
     subst hp; decide)
   exact absurd this (by rw [stale_logger_overtakes.2.1]; decide)
 
+
+/-! ### stress histories: what the oracle's verdict means, and that the expectation meets it -/
+
+theorem lemma_expand_single (n : Nat) : expandRuns [(0, n)] = List.range n := by
+  simp [expandRuns]
+
+/-- the stress oracle accepts only if every goroutine's output is 0, 1, …, n-1 -/
+theorem stress_ok_means_all_in_order (logged : List Nat) (runs : List (List (Nat × Nat)))
+    (h : stressOK logged runs = true) : ∀ nr ∈ logged.zip runs, expandRuns nr.2 = List.range nr.1 := by
+  intro nr hnr
+  simp only [stressOK, Bool.and_eq_true, List.all_eq_true] at h
+  have := h.2 nr hnr
+  split at this
+  · rename_i h0
+    have h0' : nr.1 = 0 := by simpa using h0
+    have h1 : nr.2 = [] := by simpa using this
+    rw [h0', h1]; rfl
+  · have h1 : nr.2 = [(0, nr.1)] := by simpa using this
+    rw [h1, lemma_expand_single]
+
+theorem stress_expected_ok (logged : List Nat) : stressOK logged (stressExpected logged) = true := by
+  simp only [stressOK, stressExpected, List.length_map, beq_self_eq_true, Bool.true_and]
+  induction logged with
+  | nil => rfl
+  | cons n rest ih =>
+    simp only [List.map_cons, List.zip_cons_cons, List.all_cons, ih, Bool.and_true]
+    by_cases hn : n = 0
+    · simp [hn]
+    · simp [hn]
+
 end Rivaas.C20
